@@ -162,6 +162,123 @@ Proof.
   destruct (forallb _ _); [|discriminate]. intros H; inversion H; subst. cbn. auto.
 Qed.
 
+(* ---------- invariant of the lat-lon / temporal part of the model state, over ALL setter histories *)
+Definition geo_inv (m : geomodel (T := T)) : Prop :=
+  1 <= g_dim m /\ length (g_anis m) = g_dim m - 1 /\ length (g_angles m) = no_of_angles (g_dim m) /\
+  (g_latlon m = true ->
+     g_dim m = 3 + b2n (g_temporal m) /\ aget zero (g_anis m) 0 = one /\ aget zero (g_anis m) 1 = one /\
+     g_angles m = repeat zero (no_of_angles (g_dim m))) /\
+  (g_latlon m = false -> g_temporal m = true ->
+     forall k, no_of_angles (g_dim m - 1) <= k -> aget zero (g_angles m) k = zero).
+
+Lemma set_len_anis_latlon_ones dim ls anis l a : 3 <= dim ->
+  set_len_anis O dim ls anis true = Some (l, a) -> aget zero a 0 = one /\ aget zero a 1 = one.
+Proof.
+  intros Hd E. pose proof (set_len_anis_length dim ls anis true l a ltac:(lia) E) as Hl.
+  unfold set_len_anis in E. destruct (forallb _ _); [|discriminate]. inversion E; subst.
+  rewrite map_length, seq_length in Hl.
+  set (oa := if Nat.eqb _ 1 then _ else _) in *.
+  destruct (length oa) as [|[|n]]; try lia. split; reflexivity.
+Qed.
+
+Lemma set_model_angles_inv dim angles latlon temporal :
+  (latlon = true -> set_model_angles O dim angles latlon temporal = repeat zero (no_of_angles dim)) /\
+  (latlon = false -> temporal = true ->
+     forall k, no_of_angles (dim - 1) <= k -> aget zero (set_model_angles O dim angles latlon temporal) k = zero).
+Proof.
+  split.
+  - intros ->. reflexivity.
+  - intros -> -> k Hk. now apply set_model_angles_temporal_zero.
+Qed.
+
+Theorem construct_inv dim sdim latlon temporal geo ls anis angles m :
+  construct O dim sdim latlon temporal geo ls anis angles = Some m ->
+  geo_inv m /\ g_latlon m = latlon /\ g_temporal m = temporal.
+Proof.
+  unfold construct.
+  set (d := if latlon then 3 + b2n temporal else _).
+  destruct (Nat.ltb_spec d 1) as [|Hd]; [discriminate|].
+  destruct (set_len_anis O d ls anis latlon) as [[l a]|] eqn:E; [|discriminate].
+  intros H; inversion H; subst; clear H. unfold geo_inv. cbn [g_dim g_latlon g_temporal g_anis g_angles].
+  split; [|auto]. split; [lia|]. split; [eapply set_len_anis_length; eauto|].
+  split; [apply set_model_angles_length|]. split.
+  - intros Hl. subst latlon. assert (Ed : d = 3 + b2n temporal) by reflexivity.
+    assert (H3 : 3 <= d) by lia.
+    destruct (set_len_anis_latlon_ones d ls anis l a H3 E) as [H0 H1].
+    split; [exact Ed|]. split; [exact H0|]. split; [exact H1 | reflexivity].
+  - intros Hl Ht k Hk. subst latlon temporal. now apply set_model_angles_temporal_zero.
+Qed.
+
+Lemma len_anis_step_inv m ls an l a : geo_inv m ->
+  set_len_anis O (g_dim m) ls an (g_latlon m) = Some (l, a) ->
+  geo_inv (mkGeo (g_dim m) (g_latlon m) (g_temporal m) (g_geo_scale m) l a (g_angles m)).
+Proof.
+  intros (Hd & Ha & Hg & Hll & Htt) E. unfold geo_inv. cbn [g_dim g_latlon g_temporal g_anis g_angles].
+  split; [exact Hd|]. split; [eapply set_len_anis_length; eauto|]. split; [exact Hg|]. split; [|exact Htt].
+  intros Hl. destruct (Hll Hl) as (Hdim & _ & _ & Hang). rewrite Hl in E.
+  assert (H3 : 3 <= g_dim m) by lia.
+  destruct (set_len_anis_latlon_ones (g_dim m) ls an l a H3 E) as [H0 H1].
+  split; [exact Hdim|]. split; [exact H0|]. split; [exact H1 | exact Hang].
+Qed.
+
+Theorem gstep_inv m op m' : geo_inv m -> gstep O m op = Some m' ->
+  geo_inv m' /\ g_dim m' = g_dim m /\ g_latlon m' = g_latlon m /\ g_temporal m' = g_temporal m /\ g_geo_scale m' = g_geo_scale m.
+Proof.
+  intros Hi H. destruct op as [ls|an|ang]; cbn [gstep] in H.
+  - destruct (set_len_anis O (g_dim m) ls (g_anis m) (g_latlon m)) as [[l a]|] eqn:E; [|discriminate].
+    inversion H; subst; clear H. split; [eapply len_anis_step_inv; eauto|]. cbn. auto.
+  - destruct (set_len_anis O (g_dim m) [g_len_scale m] an (g_latlon m)) as [[l a]|] eqn:E; [|discriminate].
+    inversion H; subst; clear H. split; [eapply len_anis_step_inv; eauto|]. cbn. auto.
+  - inversion H; subst; clear H. split; [|cbn; auto].
+    destruct Hi as (Hd & Ha & Hg & Hll & Htt). unfold geo_inv. cbn [g_dim g_latlon g_temporal g_anis g_angles].
+    split; [exact Hd|]. split; [exact Ha|]. split; [apply set_model_angles_length|]. split.
+    + intros Hl. destruct (Hll Hl) as (Hdim & H0 & H1 & _). rewrite Hl.
+      split; [exact Hdim|]. split; [exact H0|]. split; [exact H1 | reflexivity].
+    + intros Hl Ht k Hk. rewrite Hl, Ht. now apply set_model_angles_temporal_zero.
+Qed.
+
+Theorem gsteps_inv ops : forall m m', geo_inv m -> gsteps O m ops = Some m' ->
+  geo_inv m' /\ g_dim m' = g_dim m /\ g_latlon m' = g_latlon m /\ g_temporal m' = g_temporal m /\ g_geo_scale m' = g_geo_scale m.
+Proof.
+  induction ops as [|op r IH]; intros m m' Hi H; cbn [gsteps] in H.
+  - inversion H; subst. auto.
+  - destruct (gstep O m op) as [m1|] eqn:E; [|discriminate].
+    destruct (gstep_inv m op m1 Hi E) as (Hi1 & E1 & E2 & E3 & E4).
+    destruct (IH m1 m' Hi1 H) as (Hi' & F1 & F2 & F3 & F4).
+    rewrite F1, F2, F3, F4. auto.
+Qed.
+
+(* assigning a scalar len_scale keeps every ratio, in particular the time ratio of a lat-lon + temporal
+   model (the defect repaired by /repo commit b408ce8) *)
+Lemma map_override_ones (r : list T) :
+  map (fun i => if Nat.ltb i 2 then one else aget zero (one :: one :: r) i) (seq 0 (length (one :: one :: r))) = one :: one :: r.
+Proof.
+  cbn [length seq map Nat.ltb Nat.leb]. f_equal. f_equal.
+  rewrite <- seq_shift, <- seq_shift, !map_map.
+  apply (list_ext zero).
+  - now rewrite map_length, seq_length.
+  - intros i Hi. rewrite map_length, seq_length in Hi.
+    rewrite (aget_map_seq zero) by auto. reflexivity.
+Qed.
+
+Theorem len_scale_keeps_ratios m l m' : geo_inv m ->
+  gstep O m (OpLen [l]) = Some m' -> g_anis m' = g_anis m /\ g_len_scale m' = l.
+Proof.
+  intros (Hd & Ha & Hg & Hll & Htt) H. cbn [gstep] in H.
+  destruct (set_len_anis O (g_dim m) [l] (g_anis m) (g_latlon m)) as [[l' a]|] eqn:E; [|discriminate].
+  inversion H; subst; clear H. cbn [g_anis g_len_scale].
+  unfold set_len_anis in E.
+  assert (Hf : forall d, 1 <= d -> firstn d [l] = [l]) by (intros [|d] ?; [lia | destruct d; reflexivity]).
+  rewrite (Hf _ Hd) in E. cbn [length Nat.eqb aget nth] in E.
+  assert (Hs : set_anis O (g_dim m) (g_anis m) = g_anis m).
+  { unfold set_anis. rewrite <- Ha, firstn_all, Nat.sub_diag. reflexivity. }
+  rewrite Hs in E. destruct (forallb _ _); [|discriminate]. inversion E; subst; clear E. split; [|reflexivity].
+  destruct (g_latlon m) eqn:Hl; [|reflexivity].
+  destruct (Hll eq_refl) as (Hdim & H0 & H1 & _).
+  destruct (g_anis m) as [|a0 [|a1 r]] eqn:Ea; cbn [length] in Ha; try (destruct (g_temporal m); cbn in Hdim; lia).
+  unfold aget in H0, H1. cbn [nth] in H0, H1. subst a0 a1. apply map_override_ones.
+Qed.
+
 End Structural.
 
 (* ====================================================================== real instance *)
